@@ -147,14 +147,14 @@ def id_generator_obligations():
 def run(report):
     try:
         ex, obs, npaths = id_generator_obligations()
-    except (GenError, KeyError, AttributeError, TypeError, NotImplementedError) as e:
+    except Exception as e:  # left the modelled subset: fault + executable-contract search
         # the counter table left the modelled shape (module-level dict written by next_id only): checker fault, and the executed
         # history checks below still run and report real aliasing as a violation
         report.fault(f"VC generation for id_generator failed: {type(e).__name__}: {e}")
         from . import c09_names
         try:
             c09_names.run(report)
-        except (GenError, KeyError, AttributeError, TypeError, NotImplementedError) as e2:
+        except Exception as e2:
             report.fault(f"VC generation for symbols.py failed: {type(e2).__name__}: {e2}")
             c09_names.bounded_aliasing(report)
         return
